@@ -60,6 +60,16 @@ Mismatch == IF Cs.dim = 2 /\ ~Cs.planeStress THEN {}      \* plane strain: decid
 Verdict == [id |-> Cs.id, frameOK |-> Orthonormal(Cs.P), mismatch |-> Mismatch,
             expected |-> [i \in 1..6 |-> [j \in 1..6 |-> SGlobal(Cs)[i][j]]]]
 
+(* units: the compliance is homogeneous of degree -1 in the moduli (the same material with its moduli written in Pa instead *)
+(* of GPa): S(k * moduli) = S(moduli) / k.  Checked here for k = 2 on the documented compliances; the harness builds every    *)
+(* parametric case a second time with its moduli multiplied by 2^40 and multiplies the reported compliance back, so that an   *)
+(* absolute threshold on a compliance or stiffness entry shows as a mismatch against the SAME exact expectation.              *)
+Moduli == {"E", "El", "Et", "Gl", "E1", "E2", "E3", "G23", "G13", "G12"}
+ScalePrm(p, kk) == [f \in DOMAIN p |-> IF f \in Moduli THEN Mul(kk, p[f]) ELSE p[f]]
+UnitLaw == (Cs.cls # "Anisotropic") =>
+    LET s1 == SMat(Cs)  s2 == SMat([Cs EXCEPT !.prm = ScalePrm(Cs.prm, Two)])
+    IN  \A i, j \in 1..6 : s2[i][j] = Mul(Half, s1[i][j])
+
 Init == k = 1
 Next == k < Len(Cases) /\ k' = k + 1
 Spec == Init /\ [][Next]_vars
